@@ -26,6 +26,7 @@ import (
 	"os/exec"
 	"path/filepath"
 	"strings"
+	"time"
 
 	"github.com/notaryproject/notation-go/internal/io"
 	"github.com/notaryproject/notation-go/internal/slices"
@@ -36,6 +37,12 @@ import (
 
 // maxPluginOutputSize is the maximum size of the plugin output.
 const maxPluginOutputSize = 64 * 1024 * 1024 // 64 MiB
+
+// pluginWaitDelay bounds the time to wait for the output pipes of a plugin
+// to be closed after the plugin process has exited or its context is done.
+// Without it, a descendant of the plugin holding the pipes open would block
+// the call indefinitely.
+const pluginWaitDelay = 5 * time.Second
 
 var executor commander = &execCommander{} // for unit test
 
@@ -230,6 +237,7 @@ func (c execCommander) Output(ctx context.Context, name string, command plugin.C
 	// bytes written with the expected length of the bytes.
 	cmd.Stderr = io.LimitWriter(&stderr, maxPluginOutputSize)
 	cmd.Stdout = io.LimitWriter(&stdout, maxPluginOutputSize)
+	cmd.WaitDelay = pluginWaitDelay
 	err := cmd.Run()
 	if err != nil {
 		if errors.Is(ctx.Err(), context.DeadlineExceeded) {
